@@ -18,7 +18,7 @@ RULE = (
 ASSUMPTIONS = [
     "depth = longest chain of nested grammar nodes; the language contains exactly the well-typed, refinement-satisfying programs (dependent refinements on actual siblings)",
     "grow must reach exactly the language; position-independent grow and full must stay inside it",
-    "full == 'all leaf nodes at the maximum depth' is only required on grammars with a single abstract type whose class-typed fields all have that type and whose lists cannot be empty",
+    "full == 'all leaf nodes at the maximum depth' is required on grammars whose abstract types are all recursive, whose class-typed fields mention abstract types only and whose lists cannot be empty; where no program at all has every branch end at the limit, whatever full creation returns is only required to be in the language",
     "grammars whose draws are not finite (floats, ranges wider than 64, plain int/str) are skipped and counted, never guessed",
 ]
 PLAN = {
@@ -26,7 +26,7 @@ PLAN = {
     "thorough": {"shards": 16, "shard_timeout": 3600, "case_timeout": 200, "grammars": 2500, "max_extra_depth": 3, "max_case_timeouts": 150},
 }
 THRESHOLDS = {
-    "quick": {"exhaustive_spaces": 150, "decision_sequences_executed": 20000, "programs_in_languages": 3000, "mode:grow": 80, "mode:pigrow": 30, "mode:full": 30, "frontier_spaces": 50, "full_exact_spaces": 5, "languages_with_union_or_tuple": 20, "languages_with_lists": 20},
+    "quick": {"exhaustive_spaces": 150, "decision_sequences_executed": 20000, "programs_in_languages": 3000, "mode:grow": 80, "mode:pigrow": 30, "mode:full": 30, "frontier_spaces": 50, "full_exact_spaces": 5, "full_spaces_on_grammars_whose_types_skip_depths": 3, "languages_with_union_or_tuple": 20, "languages_with_lists": 20},
     "thorough": {"exhaustive_spaces": 2500, "decision_sequences_executed": 600000, "programs_in_languages": 80000},
 }
 LANG_CAP = 5000
@@ -44,6 +44,29 @@ def gen_cases(tier, seed):
 
 
 FIXED_FINITE = [
+    {  # every abstract type is recursive, but G's trees have odd depths only (G -> GLit | GW(H), H -> HB(G)): a production
+        # that is 'recursive and shallow enough' cannot always be filled to exactly the remaining depth
+        "name": "fin_full_gap",
+        "abstracts": [{"name": "E", "parent": None, "style": "abc"}, {"name": "G", "parent": None, "style": "abc"}, {"name": "H", "parent": None, "style": "abc"}],
+        "prods": [
+            {"name": "Lit", "parent": "E", "fields": []},
+            {"name": "Neg", "parent": "E", "fields": [["e", ["ref", "E"]]]},
+            {"name": "Two", "parent": "E", "fields": [["e", ["ref", "E"]], ["g", ["ref", "G"]]]},
+            {"name": "GLit", "parent": "G", "fields": []},
+            {"name": "GW", "parent": "G", "fields": [["h", ["ref", "H"]]]},
+            {"name": "HB", "parent": "H", "fields": [["g", ["ref", "G"]]]},
+        ],
+        "start": "E",
+    },
+    {  # a union offering a (sized) LIST of statements next to a single statement: full creation has to take both
+        "name": "fin_full_union_list",
+        "abstracts": [{"name": "Stmt", "parent": None, "style": "abc"}],
+        "prods": [
+            {"name": "Skip", "parent": "Stmt", "fields": []},
+            {"name": "Block", "parent": "Stmt", "fields": [["body", ["union", ["ann", ["list", ["ref", "Stmt"]], ["ListSizeBetween", 2, 2]], ["ref", "Stmt"]]]]},
+        ],
+        "start": "Stmt",
+    },
     {  # mutual recursion in which B's SHALLOWEST derivation goes back through A while a deeper one avoids it
         "name": "fin_mutual_back",
         "abstracts": [{"name": "A", "parent": None, "style": "abc"}, {"name": "B", "parent": None, "style": "abc"}],
@@ -167,16 +190,22 @@ def full_eligible(desc, model=None):
         return False
     hi, _ = model.mindepth_table(False)
     rec_set = set(model.recursive())
+    kind = "exact"
     for c in model.registered:
         if c not in model.reachable():
             continue
         if refmodel.is_abs(c):
-            if c not in rec_set or hi[c] != 1:
-                return False
+            if c not in rec_set:
+                return False  # the clause speaks about grammars in which EVERY abstract type is recursive
+            if hi[c] != 1:
+                kind = "gaps"
         elif any(model.classes_in(t) for _, t in model.fields(c)):
             if c not in rec_set or hi[c] != 2:
-                return False
-    return True
+                kind = "gaps"
+    # "gaps": every abstract type is recursive, but some type cannot be filled to EVERY depth above its minimum (its
+    # trees skip depths, or a production only fits at some depths); violations there carry the grammar kind in their
+    # mechanism, so that the gapless family keeps deciding everything else about full creation
+    return kind
 
 
 def leaves_at(model, v, d, depth=1):
@@ -295,6 +324,10 @@ def one_space(case, rec, built, g, model, d, frontier):
             td = model.text_depth(t)
             rec.violation(f"grow:missing:{'at-frontier' if td == d else 'below-frontier'}", dict(wit, program=core.short(t, 300), program_depth=td, missing=len(missing)))
     elif mode == "full" and full_eligible(desc, model):
+        kind = full_eligible(desc, model)
+        sfx = "" if kind == "exact" else ":grammar-whose-types-skip-depths"
+        if "'union', ['ann', ['list'" in str(desc) or "'union', ['list'" in str(desc) or "'union', ['tuple'" in str(desc):
+            sfx += ":union-with-a-list-or-tuple-member"
         full = {t for t, (prog, _) in reach.items() if True}
         expected = set()
         # the full language: language members whose leaf nodes all sit at depth d (decided on reached programs and,
@@ -306,11 +339,17 @@ def one_space(case, rec, built, g, model, d, frontier):
             elif _text_leaves_at(t, d):
                 expected.add(t)
         rec.count("full_exact_spaces")
-        for t in sorted(expected - full)[:2]:
-            rec.violation("full:missing-full-program", dict(wit, program=core.short(t, 300), full_language=len(expected)))
-        for t in sorted(full - expected)[:2]:
-            if t in langset:
-                rec.violation("full:reaches-program-with-a-branch-ending-early", dict(wit, program=core.short(t, 300), draws=reach[t][1][:30]))
+        if kind != "exact":
+            rec.count("full_spaces_on_grammars_whose_types_skip_depths")
+        if not expected:
+            # no program of this grammar has all its branches end at exactly this depth: creation has to return something
+            rec.count("full_spaces_without_any_full_program")
+        else:
+            for t in sorted(expected - full)[:2]:
+                rec.violation("full:missing-full-program" + sfx, dict(wit, program=core.short(t, 300), full_language=len(expected)))
+            for t in sorted(full - expected)[:2]:
+                if t in langset:
+                    rec.violation("full:reaches-program-with-a-branch-ending-early" + sfx, dict(wit, program=core.short(t, 300), draws=reach[t][1][:30], full_language=len(expected)))
     if len(lang) >= 2:
         rec.distinct_add([desc["name"], mode, d])
     rec.sample(dict(wit, exhaustive=True, example=lang[min(1, len(lang) - 1)][:120] if lang else None), cap=5)
